@@ -230,14 +230,19 @@ fn oracles_for_one(property: &str, i: usize, rec: &RunRecord, ex: &Expected) -> 
                 out.extend(oracle::stdin_oracle(property, inv, ex, run, i, kf8));
                 // check mode: stdout carries a diff record for "stdin" iff the input differs, and
                 // nothing else (in particular nothing on a parse error)
-                let stream_fault = run.trace.fired.iter().any(|f| f.kind == "EIO" || f.kind == "EPIPE");
+                let stream_fault = run.trace.fired.iter().any(|f| f.kind == "EIO" || f.kind == "EPIPE" || f.kind == "EAGAIN");
                 if inv.opts.check && !stream_fault {
                     out.extend(oracle::report_oracle(property, inv, world, ex, run, i).into_iter().map(|mut v| {
                         v.class = format!("stdin/{}{}", v.class, if kf8 { "/respect-ignores-stdin-filepath-non-nearest-ignore-file" } else { "" });
                         v
                     }));
                 }
-                out.extend(oracle::no_write_oracle(property, run, i));
+                if inv.opts.files.iter().any(|f| f != "-") && !inv.opts.check {
+                    // files named beside `-` are formatted in place as usual; everything else stays
+                    out.extend(oracle::tree_oracle(property, "stdin-mixed", inv, ex, run, i));
+                } else {
+                    out.extend(oracle::no_write_oracle(property, run, i));
+                }
             }
             "C19" => {
                 out.extend(oracle::masking_oracle(property, inv, run, i));
